@@ -171,6 +171,8 @@ impl F51x4Unreduced {
 
     #[inline]
     pub fn negate_lazy(&self) -> F51x4Unreduced {
+        #[cfg(curve25519_dalek_verif)]
+        crate::verif::monitor::ifma("ifma.negate_lazy", &self.0, 55);
         let lo = u64x4::splat(36028797018963664u64);
         let hi = u64x4::splat(36028797018963952u64);
         F51x4Unreduced([
@@ -270,6 +272,8 @@ impl F51x4Reduced {
 
     #[inline]
     pub fn square(&self) -> F51x4Unreduced {
+        #[cfg(curve25519_dalek_verif)]
+        crate::verif::monitor::ifma("ifma.square", &self.0, 52);
         unsafe {
             let x = &self.0;
 
@@ -437,6 +441,8 @@ impl<'a> Mul<(u32, u32, u32, u32)> for &'a F51x4Reduced {
     type Output = F51x4Unreduced;
     #[inline]
     fn mul(self, scalars: (u32, u32, u32, u32)) -> F51x4Unreduced {
+        #[cfg(curve25519_dalek_verif)]
+        crate::verif::monitor::ifma("ifma.mul_by_constants", &self.0, 52);
         unsafe {
             let x = &self.0;
             let y = u64x4::new(
@@ -489,6 +495,11 @@ impl<'a, 'b> Mul<&'b F51x4Reduced> for &'a F51x4Reduced {
     type Output = F51x4Unreduced;
     #[inline]
     fn mul(self, rhs: &'b F51x4Reduced) -> F51x4Unreduced {
+        #[cfg(curve25519_dalek_verif)]
+        {
+            crate::verif::monitor::ifma("ifma.mul.lhs", &self.0, 52);
+            crate::verif::monitor::ifma("ifma.mul.rhs", &rhs.0, 52);
+        }
         unsafe {
             // Inputs
             let x = &self.0;
